@@ -186,7 +186,33 @@ impl<'a> G<'a> {
         }
     }
 
+    /// `X(x) - X(y) + X(z)` with x < y < z: the value passes below zero on the way to a positive amount (one
+    /// class alone, or next to a class that stays positive).
+    fn dipping_assets(&mut self) -> E {
+        let (x, y, z) = (self.r.range(1, 50), self.r.range(51, 100), self.r.range(101, 500));
+        let mk = |g: &mut Self, tok: &Option<String>, n: i64| match tok {
+            Some(t) => E::Call(t.clone(), vec![E::Num(n)]),
+            None => { let _ = g; E::Call("Ada".into(), vec![E::Num(n)]) }
+        };
+        let tok = if !self.tokens.is_empty() && self.r.chance(1, 2) { Some(self.r.pick(&self.tokens).clone()) } else { None };
+        let chain = E::Add(
+            Box::new(E::Sub(Box::new(mk(self, &tok, x)), Box::new(mk(self, &tok, y)))),
+            Box::new(mk(self, &tok, z)),
+        );
+        if self.r.chance(1, 3) {
+            // next to an amount of another class
+            let other = if tok.is_some() { None } else if !self.tokens.is_empty() { Some(self.tokens[0].clone()) } else { None };
+            if other != tok {
+                return E::Add(Box::new(mk(self, &other, 7)), Box::new(chain));
+            }
+        }
+        chain
+    }
+
     fn small_assets(&mut self, depth: usize) -> E {
+        if self.r.chance(1, 8) {
+            return self.dipping_assets();
+        }
         let a = self.asset_atom();
         if depth == 0 || self.r.chance(1, 2) {
             a
